@@ -853,6 +853,49 @@ def rules_c06(ctx):
             rule_narrow_scope(ctx, [D + '::lower_bound', D + '::range', IT + '::lazy_initialize']))
 
 
+def rule_accum_once(ctx):
+    """buffer_max_size (the LSM bound of the insertion buffer) is accumulated over the buffer levels exactly once per
+    construction: counted along the constructor, the constructor it delegates to and the member functions they call."""
+    obs = []
+    BMS = ('field', 'buffer_max_size', THIS)
+    for u in ctx.units:
+        ctors = [f for f in u.fns(D + '::DynamicPGMIndex') if not f.d.get('special') and not f.d.get('implicit') and f.cfg]
+        memo = {}
+
+        def count(fn, depth=0):
+            """number of accumulation groups (a `+=` site, a loop around it counting once) executed by fn, incl. callees of the same record"""
+            if fn.id in memo:
+                return memo[fn.id]
+            memo[fn.id] = 0
+            n = 0
+            for i in fn.all_ids():
+                nd = fn.n(i)
+                if nd['c'] == 'CompoundAssignOperator' and nd['op'] == '+=' and reachable(fn, i) and strip_cast(fn.term(nd['ch'][0], inline=False)) == BMS:
+                    n += 1
+            if depth < 4:
+                for ini in fn.d.get('inits', []):
+                    if ini.get('delegating'):
+                        callee = u.functions.get(fn.n(ini['expr']).get('cd'))
+                        if callee is not None:
+                            n += count(callee, depth + 1)
+                for c in fn.calls():
+                    nd = fn.n(c)
+                    callee = u.functions.get(nd.get('cd'))
+                    if callee is not None and callee.record == fn.record and callee.id != fn.id and reachable(fn, c) and nd['c'] == 'CXXMemberCallExpr':
+                        n += count(callee, depth + 1)
+            memo[fn.id] = n
+            return n
+        for f in ctors:
+            memo.clear()
+            n = count(f)
+            obs.append(Ob('ACCUM-ONCE', f, 0, 'the buffer bound buffer_max_size is accumulated exactly once per construction (constructor + delegated constructor + helpers)',
+                          f"{n} accumulation site(s) on the construction path of the {len(f.params)}-parameter constructor" + ('' if n == 1 else ': the bound is ' + ('never computed' if n == 0 else f"{n} times too large, the buffer is allowed to exceed its LSM capacity")),
+                          OK if n == 1 else VIOLATED, arm=f"ctor{len(f.params)}"))
+    if not obs:
+        raise AnalysisBroken('ACCUM-ONCE: no DynamicPGMIndex constructor found')
+    return obs
+
+
 def rules_c15(ctx):
     # levels stay strictly sorted only if the merge emits each key once, in order (the per-branch and bulk-emission clauses)
-    return rule_index_sync(ctx) + [o for o in rule_merge_precedence(ctx) if o.arm in ('older-smaller', 'newer-smaller', 'tie', 'bulk')]
+    return rule_index_sync(ctx) + rule_accum_once(ctx) + [o for o in rule_merge_precedence(ctx) if o.arm in ('older-smaller', 'newer-smaller', 'tie', 'bulk')]
